@@ -25,7 +25,7 @@ def main(tier):
     chk.assume('requires of every contract: layers stacked (top of each = bottom of the one above), bottom < centre < top, column area > 0, the two nodes of a connection distinct',
                'record model with 3 underground layers: layer 1 (top), an interior layer and the bottom layer cover the code\'s case distinctions',
                'whole-geometry obligations: real mulgrid.rectangular() + t2grid.fromgeo() run by the executor for 7 (nx, ny, nz, atmosphere type, convention, number of symbolic column surfaces) shapes with '
-               'symbolic spacings, elevation origin, surfaces anywhere above the model bottom, atmosphere volume and connection distance; horizontal origin concrete',
+               'symbolic spacings, origin (all three coordinates), surfaces anywhere above the model bottom, atmosphere volume and connection distance',
                'irregular polygons, other sizes, tilted geometries, permeability angles, block maps: bounded')
     chk.explanation = ('clause -> evidence: block top / volume / centre formulas incl. truncated and above-grid surface blocks: PROVED (all surface positions, 3 layer positions x 3 atmosphere types); '
                        'column volumes telescope to area x depth: PROVED; horizontal area = edge length x lower height, distances = perpendicular distances: PROVED; '
